@@ -203,8 +203,8 @@ def _hadronic_job(kw):
 
     proj = model.project()
     try:
-        below = O.fold_op(proj, R.Cell(**kw), below_threshold=True)
-        above = O.fold_op(proj, R.Cell(**kw))
+        below = O.fold_op(proj, R.Cell(**kw), below_threshold=True, prepare=pair_threshold_regime(-1))
+        above = O.fold_op(proj, R.Cell(**kw), prepare=pair_threshold_regime(+1))
     except O.FoldFailure as f:
         return ("fold", f.outcome.status, f"{f.outcome.etype} {f.outcome.msg}"[:160])
 
@@ -248,17 +248,59 @@ def check_hadronic(rep, proj, tier):
     rep.floor("hadronic-threshold cells with massive terms above threshold", n_nontrivial, 20)
 
 
+def pair_threshold_regime(sign):
+    """prepare-hook for fold_op: any comparison the folded run makes whose difference is (W^2-like) Q2 (1-x)/x - 4 m_q^2 times a factor
+    of definite sign - i.e. an inlined hadronic pair-threshold test, however it is spelled - is decided for the regime `sign`
+    (+1 above, -1 below the threshold of every heavy quark)."""
+    x, Q2 = A.sym("xB", True), A.sym("Q2", True)
+    diffs = [Q2 * (A.Rat.const(1) - x) / x - A.sym(m, True) * A.sym(m, True) * 4 for m in ("mc", "mb", "mt")]
+
+    def prepare(ev, runner):
+        prev = ev.on_compare
+
+        def on_compare(op, a, b, node):
+            r = prev(op, a, b, node) if prev is not None else None
+            if r is not None:
+                return r
+            try:
+                d = A.to_rat(a) - A.to_rat(b)
+                for diff in diffs:
+                    g = _proportional_sign(d, diff)
+                    if g is not None:
+                        sg = sign * g
+                        return {"Lt": sg < 0, "LtE": sg <= 0, "Gt": sg > 0, "GtE": sg >= 0, "Eq": False, "NotEq": True}.get(type(op).__name__)
+            except (A.Undecided, ZeroDivisionError, TypeError):
+                return None
+            return None
+
+        ev.on_compare = on_compare
+
+    return prepare
+
+
 def _cc_job(kw):
     from .. import model
 
     proj = model.project()
     try:
-        op = O.fold_op(proj, R.Cell(**kw))
+        op = O.fold_op(proj, R.Cell(**kw), prepare=pair_threshold_regime(+1))
+        op_below = O.fold_op(proj, R.Cell(**kw), prepare=pair_threshold_regime(-1))
     except O.FoldFailure as f:
         return ("fold", f.outcome.status, f"{f.outcome.etype} {f.outcome.msg}"[:160])
     x, Q2 = A.sym("xB", True), A.sym("Q2", True)
     bad = []
     n = 0
+    # single heavy-quark production in CC opens at W^2 = m^2 (chi = 1), not at the pair threshold W^2 = 4 m^2: the operator
+    # must be the same on both sides of the latter
+    ndiff, first = 0, None
+    for key in sorted(op.keys() | op_below.keys()):
+        for p_ in op.pids:
+            for j in range(R.GRID_N):
+                if not O.same(op.entry(key, p_, j), op_below.entry(key, p_, j)):
+                    ndiff += 1
+                    first = first or (key, p_, j)
+    if ndiff:
+        bad.append(f"{ndiff} entries change across the NC pair threshold W^2 = 4 m^2 (e.g. order {first[0]} pid {first[1]}): charged-current heavy production must only close at chi = x (1 + m^2/Q^2) = 1")
     for key, (vals, errs) in op.orders.items():
         for row in vals:
             for e in row:
@@ -316,8 +358,8 @@ def check_cc(rep, proj, tier):
             continue
         _, bad, n = o
         n_atoms += n
-        rep.check(not bad, "C09.cc", "src/yadism/esf/esf.py", label, f"{n} massive CC quadratures taken at x (1 + m^2/Q^2)",
-                  f"massive CC quadrature at {bad} instead of x (1 + m^2/Q^2)", key=label)
+        rep.check(not bad, "C09.cc", "src/yadism/esf/esf.py", label, f"{n} massive CC quadratures taken at x (1 + m^2/Q^2); operator identical on both sides of W^2 = 4 m^2",
+                  "; ".join(b if "entries change" in b else f"massive CC quadrature at {b} instead of x (1 + m^2/Q^2)" for b in bad), key=label)
     rep.floor("massive CC quadrature atoms", n_atoms, 50)
 
 
@@ -332,7 +374,7 @@ def _mass_job(kw):
 
     proj = model.project()
     try:
-        op = O.fold_op(proj, R.Cell(**kw))
+        op = O.fold_op(proj, R.Cell(**kw), prepare=pair_threshold_regime(+1))
     except O.FoldFailure as f:
         return ("fold", f.outcome.status, f"{f.outcome.etype} {f.outcome.msg}"[:160])
     log = getattr(op.ev, "kernel_log", [])
